@@ -17,6 +17,7 @@
 struct gm_params {
 	uint64_t seed;
 	unsigned n_lps, n_types, max_fan, thr_base, thr_spread, use_rng, mem_ops, t0_events;
+	unsigned lib; /* also use the floating-point library RNG API (no Lean twin: judged by the implementation-side oracles only) */
 };
 static struct gm_params GM;
 
@@ -144,6 +145,9 @@ static inline void gm_send(lp_id_t dest, uint64_t tq, unsigned type, unsigned si
 	if(carry && size >= 8)
 		for(int i = 0; i < 8; ++i)
 			pl[i] = (acc >> (8 * i)) & 0xff;
+	/* payloads longer than the 32-byte inline buffer often share their first 32 bytes and differ only in the tail */
+	if(size > 32)
+		pl[size - 1] = (acc >> 8) & 0x3;
 	ScheduleNewEvent(dest, (double)tq / 4.0, type, size ? pl : NULL, size);
 }
 
@@ -189,6 +193,22 @@ static void gm_process(lp_id_t me, simtime_t now, unsigned type, const void *pl,
 	/* 2. library RNG */
 	if(GM.use_rng && (h & 1))
 		st->acc ^= RandomU64();
+	/* 2b. the rest of the numerical library: results are folded into the state, so any hidden state outside the
+	 * LP's rollbackable memory shows up as a state difference after rollback or across configurations */
+	if(GM.lib) {
+		double v = 0;
+		switch((h >> 3) % 6) {
+			case 0: v = Normal(); break;
+			case 1: v = Poisson(); break;
+			case 2: v = Gamma(1 + (h >> 8) % 4); break;
+			case 3: v = (double)RandomRange(-5, 1000); break;
+			case 4: v = Random(); break;
+			default: v = (double)RandomRangeNonUniform(7, 0, 50); break;
+		}
+		uint64_t vb;
+		memcpy(&vb, &v, 8);
+		st->acc ^= gm_mix(vb);
+	}
 	/* 3. dynamic memory */
 	if(GM.mem_ops)
 		gm_memop(st, st->acc >> 1);
